@@ -412,12 +412,43 @@ func (s *sim) runAlertCase(c *caseIn) *outcome {
 	for _, ps := range c.Pins {
 		pins = append(pins, s.mkPin(ps))
 	}
+	failed := s.ids[c.F]
+	prelude := func() {
+		// an earlier ping alert that gives the peers nothing to do: the
+		// pinset is empty (idleping+ping), or reading the shared state fails
+		// just then (stateerr+ping). The alert that counts comes afterwards.
+		for i := range s.peers {
+			if i == c.F {
+				continue
+			}
+			a := &api.Alert{Metric: api.Metric{Name: pingMetric, Peer: failed, Valid: false}, TriggeredAt: time.Now()}
+			a.Metric.SetTTL(-time.Second)
+			select {
+			case s.mons[i].AlertCh <- a:
+			default:
+			}
+		}
+		synctest.Wait()
+	}
+	if c.Trigger == "idleping+ping" {
+		s.states(c.Mode, nil)
+		s.setMetrics(c.Health)
+		prelude()
+	}
 	shs := s.states(c.Mode, pins)
 	for _, ps := range c.Pins {
 		o.Before[ps.Label] = s.get(shs[0], s.cidOf(ps.Label))
 	}
 	s.setMetrics(c.Health)
-	failed := s.ids[c.F]
+	if c.Trigger == "stateerr+ping" {
+		for _, sh := range shs {
+			sh.StateErrs = len(s.peers)
+		}
+		prelude()
+		for _, sh := range shs {
+			sh.StateErrs = 0
+		}
+	}
 
 	deliver := func(name string) {
 		for i := range s.peers {
@@ -440,7 +471,7 @@ func (s *sim) runAlertCase(c *caseIn) *outcome {
 		synctest.Wait()
 	}
 	switch {
-	case c.Trigger == "ping":
+	case c.Trigger == "ping", c.Trigger == "idleping+ping", c.Trigger == "stateerr+ping":
 		deliver(pingMetric)
 	case c.Trigger == "ping2":
 		deliver(pingMetric)
